@@ -246,9 +246,20 @@ def g3_shape(ctx):
         ctx.vanished("generated ballot constructions" + ": " + f"only {n} found")
     # ballot_pool_to_profile counts occurrences
     f = prog.find_func("BallotGenerator.ballot_pool_to_profile")
-    cnt = [x for x in astx.walk_own(f.node) if isinstance(x, ast.Assign) and isinstance(x.targets[0], ast.Subscript) and astx.u(x.targets[0].value) == "ranking_counts"]
-    good = len(cnt) == 1 and isinstance(cnt[0].value, ast.IfExp) and astx.u(cnt[0].value.body) == f"ranking_counts[{astx.u(cnt[0].targets[0].slice)}] + 1" \
-        and astx.is_const(cnt[0].value.orelse, 1)
+    from vk import accum
+    accs = accum.accumulations(f.node)
+    pmf = astx.parents(f.node)
+    good = False
+    if len(accs) == 1:
+        a = accs[0]
+        lp = astx.enclosing(a.node, pmf, ast.For)
+        kd = astx.unique_def(f.node, astx.u(a.key)) if isinstance(a.key, ast.Name) else a.key
+        good = a.inc_key == "1" and a.first == "1" and not a.conditional and lp is not None and astx.u(lp.iter) in f.params \
+            and kd is not None and astx.u(kd) == f"tuple({astx.u(lp.target)})"
+        # ... and the count of each key becomes the ballot's weight
+        outl = [l for l in astx.walk_own(f.node) if isinstance(l, ast.For) and astx.u(l.iter) == f"{a.dict_name}.items()"]
+        good = good and len(outl) == 1
+    cnt = [a.node for a in accs]
     ctx.check(good, f, cnt[0] if cnt else f.node, "ballot_pool_to_profile: weight = number of occurrences of the ranking in the pool", "", "occurrence counting changed")
     pc = [c for c in astx.calls_in(f.node, "PreferenceProfile")]
     ctx.check(len(pc) == 1 and {k.arg: astx.u(k.value) for k in pc[0].keywords} == {"ballots": "tuple(ballot_list)", "candidates": f.params[1]}, f, pc[0] if pc else f.node,
@@ -298,7 +309,7 @@ def g4_aggregation(ctx):
         good = lp is not None and astx.u(fo.value) == astx.u(lp.target) and astx.u(lp.iter).endswith(".values()")
         by = astx.u(lp.iter)[: -len(".values()")] if good else None
         init = [dv for st, dv in astx.defs_of(f.node, "pp") if dv is not None and st.lineno < fo.lineno and pm.get(st) is f.node]
-        good = good and bool(init) and astx.u(init[-1]) in ("PreferenceProfile()", "PreferenceProfile(ballots=tuple())")
+        good = good and bool(init) and astx.u(init[-1]) in ("PreferenceProfile()", astx.A("PreferenceProfile(ballots=tuple())"))
         rets = [r for r in astx.walk_own(f.node) if isinstance(r, ast.Return)]
         N = Normalizer(f.node, inline=False)
         shapes = {}
